@@ -1,0 +1,56 @@
+//! C36: fixtures for every credential class that `SessionConsistency::modify_inner` reads
+//! (primary credential, passkeys, attested passkeys). Thin constructors only; no behaviour
+//! of the server is changed.
+
+use crate::credential::Credential;
+use crate::prelude::{Uuid, Value};
+use time::OffsetDateTime;
+use webauthn_rs::prelude::{AttestedPasskey, Passkey};
+use webauthn_rs_core::proto::{
+    COSEAlgorithm, COSEEC2Key, COSEKey, COSEKeyType, Credential as WebauthnCredential,
+    CredentialV3, ECDSACurve, UserVerificationPolicy,
+};
+
+/// A password-only credential with the cheapest hashing parameters.
+pub fn cred_new_password(cleartext: &str) -> Credential {
+    let p = kanidm_lib_crypto::CryptoPolicy::danger_test_minimum();
+    Credential::new_password_only(&p, cleartext, OffsetDateTime::UNIX_EPOCH).expect("credential")
+}
+
+/// The (crate-private) uuid of a credential: the value sessions record as `cred_id`.
+pub fn cred_uuid(cred: &Credential) -> Uuid {
+    cred.uuid
+}
+
+/// A syntactically valid ES256 WebAuthn credential that no authenticator holds.
+fn fixture_webauthn(n: u8) -> WebauthnCredential {
+    WebauthnCredential::from(CredentialV3 {
+        cred_id: vec![0xc3, 0x6c, n, 1, 2, 3, 4, 5, 6, 7, 8, 9, 10, 11, 12, 13],
+        cred: COSEKey {
+            type_: COSEAlgorithm::ES256,
+            key: COSEKeyType::EC_EC2(COSEEC2Key {
+                curve: ECDSACurve::SECP256R1,
+                x: vec![n.wrapping_add(1); 32].into(),
+                y: vec![n.wrapping_add(2); 32].into(),
+            }),
+        },
+        counter: 0,
+        verified: false,
+        registration_policy: UserVerificationPolicy::Preferred,
+    })
+}
+
+/// A value for the `passkeys` attribute holding a (fixture) passkey with credential uuid `id`.
+pub fn passkey_value(id: Uuid, n: u8) -> Value {
+    Value::Passkey(id, format!("pk{n}"), Passkey::from(fixture_webauthn(n)))
+}
+
+/// A value for the `attested_passkeys` attribute holding a (fixture) attested passkey with
+/// credential uuid `id`. `AttestedPasskey` has no public constructor; it has the same
+/// serialised form as `Passkey`, which is what the database round trip relies on as well.
+pub fn attested_passkey_value(id: Uuid, n: u8) -> Option<Value> {
+    let pk = Passkey::from(fixture_webauthn(n));
+    let v = serde_json::to_value(&pk).ok()?;
+    let apk: AttestedPasskey = serde_json::from_value(v).ok()?;
+    Some(Value::AttestedPasskey(id, format!("apk{n}"), apk))
+}
